@@ -1296,14 +1296,14 @@ impl GRLParser {
         }
 
         // String literal
-        if trimmed.len() >= 2 {
-            let unquoted = &trimmed[1..trimmed.len() - 1];
-            if (trimmed.starts_with('"') && trimmed.ends_with('"') && !unquoted.contains('"'))
-                || (trimmed.starts_with('\'')
-                    && trimmed.ends_with('\'')
-                    && !unquoted.contains('\''))
+        for quote in ['"', '\''] {
+            if let Some(unquoted) = trimmed
+                .strip_prefix(quote)
+                .and_then(|rest| rest.strip_suffix(quote))
             {
-                return Ok(Value::String(unquoted.to_string()));
+                if !unquoted.contains(quote) {
+                    return Ok(Value::String(unquoted.to_string()));
+                }
             }
         }
 
